@@ -313,6 +313,23 @@ func init() {
 			return nil, 1
 		}
 	}
+	intrinsics[zz+"OnYield"] = func(x *Exec, st *State, fr *Frame, fn *ssa.Function, a []Value) (Value, int) {
+		f := a[0].(*FuncV)
+		if f == nil {
+			delete(st.ghost, "$onyield")
+		} else {
+			st.ghost["$onyield"] = f
+		}
+		st.mutGen++
+		return nil, 1
+	}
+	intrinsics[zz+"Yield"] = func(x *Exec, st *State, fr *Frame, fn *ssa.Function, a []Value) (Value, int) {
+		if h, ok := st.ghost["$onyield"]; ok {
+			x.redirArgs = nil
+			return h, 3
+		}
+		return nil, 1
+	}
 	intrinsics[zz+"OnLock"] = hook("$onlock:")
 	intrinsics[zz+"OnUnlock"] = hook("$onunlock:")
 	intrinsics[zz+"SwapElems"] = func(x *Exec, st *State, fr *Frame, fn *ssa.Function, a []Value) (Value, int) {
